@@ -286,7 +286,7 @@ func (w *seqWorld) exec(c *seqCmd) {
 		in.main = a
 		w.after(in)
 	case "submit":
-		if !in.alive || c.Entry >= len(w.entries) {
+		if !in.alive || in.stopped || c.Entry >= len(w.entries) {
 			return
 		}
 		e := w.entries[c.Entry]
